@@ -186,7 +186,7 @@ var propHarness = map[string]map[string][]string{
 	"C11": {"*": {"detect:single-detect"}},
 	"C12": {"detect.Threshold": {"detect:threshold-exhaustive"}, "detect.ThresholdQ": {"detect:thresholdq-perm"}, "*": {"detect:thresholdq-perm"}},
 	"C14": {"*": {"detect:stuck-at", "detect:igamc-tail"}},
-	"C13": {"rddetector.worker_2E4": {"rddetector:columns-2E4"}, "rddetector.worker_1E6": {"rddetector:columns-1E6"}, "rddetector.worker_1E8": {"rddetector:columns-1E8", "rddetector:columns-1E6"}, "*": {"rddetector:columns-2E4"}},
+	"C13": {"rddetector.worker_2E4": {"rddetector:columns-2E4"}, "rddetector.worker_1E6": {"rddetector:columns-1E6"}, "rddetector.worker_1E8": {"rddetector:columns-1E8", "rddetector:columns-1E6"}, "rddetector.resultWriter": {"rddetector:tool-run"}, "rddetector.main": {"rddetector:tool-run", "rddetector:columns-2E4"}, "*": {"rddetector:columns-2E4", "rddetector:tool-run"}},
 	"C20": {"*": {"rdgen:output-dir"}},
 	"C15": {"*": {"randomness:entry-points"}},
 	"C17": {"*": {"randomness:symmetry"}},
